@@ -124,12 +124,14 @@ def forms(f, kind, rnd, depth=0):
         items = f["items"]
         direct_ref = any(g["t"] == "ref" for g in items)
         if not f.get("uniq"):
-            if len(items) >= 2 and general:
+            if general:        # one item too: tuple[int] / typing.Tuple[int] (Tuple(items=<class>) instantiates the class)
                 out.append(("pep585", "tuple", [sub(g) for g in items]))
                 out.append(("typing", "Tuple", [sub(g) for g in items]))
             out.append(("sub", "Tuple", [sub(g) for g in items]))
         if not direct_ref:
             out.append(("ctorN", "Tuple", [sub(g, "fieldy") for g in items], NO_SZ, bool(f.get("uniq")), None))
+            if len(items) == 1:
+                out.append(("ctor1", "Tuple", sub(items[0], "fieldy"), NO_SZ, bool(f.get("uniq"))))
     elif t == "mapany":
         if _no_sz(f):
             out.append(("fcls", "Map"))
